@@ -9,4 +9,4 @@ pub use service_discovery::ServiceDiscovery;
 pub use simple_responder::SimpleMdnsResponder;
 
 #[cfg(simple_dns_verif)]
-pub(crate) use service_discovery::verif_add_response;
+pub(crate) use service_discovery::{verif_add_response, verif_add_response_closed_channel};
